@@ -29,7 +29,8 @@ NOpts == Len(Opts)
 
 Dims == {"kinds", "shapes", "reqdef", "inc", "tdchain", "ids", "svc", "args", "throws", "ext", "names", "ann", "consts", "ns"}
 Dom == [d \in Dims |->
-  CASE d = "kinds"   -> {"all", "typedef", "const", "enum", "struct", "union", "exception", "service"}
+  CASE d = "kinds"   -> {"all", "typedef", "const", "enum", "struct", "union", "exception", "service",
+                         "svc-empty", "svc-derived-empty"}   \* a lone `service S {}` / `service D extends inc.Base {}`
     [] d = "shapes"  -> {ToString(i) : i \in 0..(NBatches - 1)}
     [] d = "reqdef"  -> {"mixed", "required", "optional", "default", "optional+value", "default+value"}
     [] d = "inc"     -> {"single", "chain3", "diamond", "samens", "samebase", "pkg-b", "pkg-p", "pkg-err", "pkg-thrift"}
@@ -145,10 +146,14 @@ GenPair == /\ pc = "pair"
 \* quick: fastgo only for the dimensions its struct codecs depend on
 FastDims == {"kinds", "shapes", "reqdef", "inc", "tdchain", "ids", "names", "ns"}
 FastVec(v) == Thorough \/ v = Base \/ \E d \in FastDims : v[d] # Base[d]
+\* files that need few imports (only an enum / typedefs / constants / an empty service / an empty derived service of an
+\* included base): import-usage regressions show only there; they are generated with and without -r
+FewImports == {"enum", "typedef", "const", "svc-empty", "svc-derived-empty"}
 GenVec == /\ pc = "vec"
-          /\ \E v \in (IF Thorough THEN TwoOff ELSE OneOff), be \in {"go", "fastgo"} :
+          /\ \E v \in (IF Thorough THEN TwoOff ELSE OneOff), be \in {"go", "fastgo"}, rec \in BOOLEAN :
                /\ (be = "fastgo" => FastVec(v))
-               /\ cs' = Case("vec", v, {}, be, TRUE)
+               /\ (~rec => v["kinds"] \in FewImports)
+               /\ cs' = Case("vec", v, {}, be, rec)
           /\ pc' = "done"
 GenRand == /\ pc = "rand"
            /\ \E n \in 1..NRand :
